@@ -57,6 +57,11 @@ Proof. destruct l; cbn; [lia|]. intros _. left. reflexivity. Qed.
 Lemma map_const {A B} (b : B) (l : list A) : map (fun _ => b) l = repeat b (length l).
 Proof. induction l as [|a l IH]; [reflexivity|]. cbn. f_equal. exact IH. Qed.
 
+Lemma nth_repeat_lt {A} (a d : A) m j : (j < m)%nat -> nth j (repeat a m) d = a.
+Proof.
+  revert j. induction m as [|m IH]; intros j H; [lia|]. destruct j; cbn; [reflexivity|apply IH; lia].
+Qed.
+
 Section Proofs1.
   Context {V : Type}.
   Implicit Types (p X : panel V) (x : nested V) (m : mi V).
@@ -253,7 +258,7 @@ Section Proofs1.
   Lemma tab_to_nested_flat k p : tab_to_nested k (map (@concat V) p) = mkN k [NInt 0] (flattenp p).
   Proof. unfold tab_to_nested, flattenp. rewrite map_map. reflexivity. Qed.
 
-  Lemma tab_roundtrip k (t : tab2) : nested_to_2d (tab_to_nested k t) = t.
+  Lemma tab_roundtrip k (t : tab2 V) : nested_to_2d (tab_to_nested k t) = t.
   Proof.
     unfold nested_to_2d, tab_to_nested. cbn [n_rows]. rewrite map_map.
     rewrite <- (map_id t) at 2. apply map_ext. intro r. cbn. apply app_nil_r.
@@ -294,14 +299,15 @@ Section Proofs1.
     existsb (fun r => cell_nested (nth j r CObj)) (f_rows f).
   Proof.
     intros HF Hj. unfold are_columns_nested.
-    rewrite <- (map_nth (existsb (fun b : bool => b))) with (d := []).
+    transitivity (existsb (fun b : bool => b)
+                    (nth j (transpose (f_ncol f) (map (map cell_nested) (f_rows f))) [])).
+    { exact (map_nth (existsb (fun b : bool => b)) _ [] j). }
     rewrite (transpose_nth false).
     - induction (f_rows f) as [|r t IH]; [reflexivity|]. cbn [map existsb]. rewrite IH. f_equal.
       rewrite <- (map_nth cell_nested). reflexivity.
     - exact Hj.
     - apply Forall_forall. intros r Hr. apply in_map_iff in Hr. destruct Hr as [r' [<- Hr']].
       rewrite map_length. unfold frame_rect in HF. rewrite Forall_forall in HF. apply HF. exact Hr'.
-    - cbn. reflexivity.
   Qed.
 
   Lemma is_nested_iff f :
@@ -347,36 +353,28 @@ Section Proofs1.
     is_nested_dataframe (frame_of_nested x) = true /\
     are_columns_nested (frame_of_nested x) = repeat true c.
   Proof.
-    intros Hwf Hc. pose proof (frame_of_nested_rect n c T x Hwf Hc) as HR. split.
-    - apply is_nested_iff; [exact HR|].
-      destruct (n_rows x) as [|inst t] eqn:E.
-      { destruct Hwf as [? [_ [_ [Hl _]]]]. cbn in Hl. lia. }
-      assert (Hi : In inst (n_rows x)) by (rewrite E; left; reflexivity).
-      destruct (wf_inst n c T (n_rows x) Hwf inst Hi) as [Hl _].
-      destruct inst as [|s ss]. { cbn in Hl. destruct Hwf as [_ [? _]]. lia. }
-      unfold frame_of_nested. cbn [f_rows]. rewrite E. cbn [map].
-      eexists. eexists. split; [left; reflexivity|]. split; [left; reflexivity|].
-      destruct (n_kind x); reflexivity.
-    - apply (nth_ext _ _ false false).
-      + unfold are_columns_nested. rewrite map_length, transpose_length, repeat_length.
+    intros Hwf Hc. pose proof (frame_of_nested_rect n c T x Hwf Hc) as HR.
+    assert (Hcols : are_columns_nested (frame_of_nested x) = repeat true c).
+    { apply (nth_ext _ _ false false).
+      - unfold are_columns_nested. rewrite map_length, transpose_length, repeat_length.
         unfold frame_of_nested. cbn. exact Hc.
-      + intros j Hj. unfold are_columns_nested in Hj. rewrite map_length, transpose_length in Hj.
+      - intros j Hj. unfold are_columns_nested in Hj. rewrite map_length, transpose_length in Hj.
         rewrite are_columns_nested_nth by assumption.
         assert (Hjc : (j < c)%nat) by (unfold frame_of_nested in Hj; cbn in Hj; lia).
-        rewrite nth_repeat.
-        unfold frame_of_nested. cbn [f_rows].
-        destruct (n_rows x) as [|inst t] eqn:E.
-        { destruct Hwf as [? [_ [_ [Hl _]]]]. cbn in Hl. lia. }
-        cbn [map existsb]. apply orb_true_iff. left.
-        assert (Hi : In inst (inst :: t)) by (left; reflexivity).
-        destruct (wf_inst n c T _ Hwf inst Hi) as [Hl _].
-        rewrite (nth_indep _ CObj (match n_kind x with KSeries => CSer [] | KArray => CArr [] end))
-          by (rewrite map_length; lia).
-        rewrite (map_nth (fun s => match n_kind x with KSeries => CSer s | KArray => CArr s end)).
-        destruct (n_kind x); reflexivity.
+        rewrite (nth_repeat_lt true false c j Hjc).
+        set (mk := fun s : list V => match n_kind x with KSeries => CSer s | KArray => CArr s end).
+        assert (Hi : In (hd [] (n_rows x)) (n_rows x)).
+        { apply hd_in. rewrite (wf_len n c T _ Hwf). destruct Hwf. lia. }
+        destruct (wf_inst n c T _ Hwf _ Hi) as [Hl _].
+        apply existsb_exists. exists (map mk (hd [] (n_rows x))). split.
+        + unfold frame_of_nested. cbn [f_rows]. apply in_map_iff. exists (hd [] (n_rows x)). tauto.
+        + rewrite (nth_indep _ CObj (mk [])) by (rewrite map_length; lia).
+          rewrite (map_nth mk). unfold mk. destruct (n_kind x); reflexivity. }
+    split; [|exact Hcols].
+    unfold is_nested_dataframe. rewrite Hcols. destruct c as [|c']; [destruct Hwf; lia|reflexivity].
   Qed.
 
-  Lemma prim_frames_not_nested ncol rows :
+  Lemma prim_frames_not_nested ncol (rows : list (list V)) :
     Forall (fun r => length r = ncol) rows ->
     is_nested_dataframe (frame_of_prims ncol rows) = false.
   Proof.
